@@ -1426,8 +1426,13 @@ class StateMachineAccessPoint(Client, ServiceAccessPoint):
             # add it to our transactions to track it
             self.clientTransactions.append(tr)
 
-            # let it run
-            tr.indication(apdu)
+            # let it run, when nothing can be sent the transaction ends here
+            try:
+                tr.indication(apdu)
+            except Exception:
+                if tr.state not in (COMPLETED, ABORTED):
+                    tr.set_state(ABORTED)
+                raise
 
         else:
             raise RuntimeError("invalid APDU (9)")
